@@ -255,8 +255,9 @@ class DataclassAdapter(GenericCallAdapter):
         kwargs = {}
 
         for field in fields(value):  # type: ignore
-            # repr=False fields are still part of the value when they are compared
-            if field.repr or (field.init and field.compare):
+            # repr=False fields are still part of the value when they are compared,
+            # init=False fields can not be passed to the constructor
+            if field.init and (field.repr or field.compare):
                 field_value = getattr(value, field.name)
                 is_default = False
 
@@ -299,8 +300,9 @@ else:
             kwargs = {}
 
             for field in attrs.fields(type(value)):
-                # repr=False fields are still part of the value when they are compared
-                if field.repr or (field.init and field.eq):
+                # repr=False fields are still part of the value when they are compared,
+                # init=False fields can not be passed to the constructor
+                if field.init and (field.repr or field.eq):
                     field_value = getattr(value, field.name)
                     is_default = False
 
